@@ -562,6 +562,9 @@ public:
   {
     if (hasNode(nodeObject))
       throw Exception("AssociationGraphImplObserver::associateNode : node already exists: " + nodeToString(nodeObject));
+    // a graph node carries at most one object
+    if (graphNode < graphidToN_.size() && graphidToN_.at(graphNode) != 00)
+      throw Exception("AssociationGraphImplObserver::associateNode : graph node " + TextTools::toString(graphNode) + " has already an object: " + nodeToString(graphidToN_.at(graphNode)));
 
     // nodes vector must be the right size. Eg: to store a node with
     // the ID 3, the vector must be of size 4: {0,1,2,3} (size = 4)
@@ -582,6 +585,9 @@ public:
   {
     if (hasEdge(edgeObject))
       throw Exception("AssociationGraphImplObserver::associateEdge : edge already exists: " + edgeToString(edgeObject));
+    // a graph edge carries at most one object
+    if (graphEdge < graphidToE_.size() && graphidToE_.at(graphEdge) != 00)
+      throw Exception("AssociationGraphImplObserver::associateEdge : graph edge " + TextTools::toString(graphEdge) + " has already an object: " + edgeToString(graphidToE_.at(graphEdge)));
 
     // edges vector must be the right size. Eg: to store an edge with
     // the ID 3, the vector must be of size 4: {0,1,2,3} (size = 4)
